@@ -320,6 +320,8 @@ def other_workloads(rng, tier):
     # arrays whose capacity equals their length (every parsed array): replacing the last element, appending, inserting
     w += ["asput %d %d" % p for p in [(3, 2), (3, 3), (1, 0), (32, 31), (32, 32), (5, 4), (5, 2), (40, 39), (40, 100)]]
     w += ["asins %d %d" % p for p in [(3, 0), (3, 3), (32, 5), (1, 0), (40, 39)]]
+    # sprintbuf: short output (stack buffer) and long output (heap), into buffers that have to grow or not
+    w += ["pbspr %d %d" % p for p in [(0, 5), (0, 31), (0, 32), (20, 20), (30, 1), (0, 127), (0, 128), (0, 200), (100, 300), (31, 0)]]
     for d in DOCS:
         w.append("parse v 0 0 " + hx(d))
     for d in DOCS[8:18]:
